@@ -12,6 +12,7 @@ import IocProofs.Lemmas.MatchPoint
 import IocProofs.Lemmas.MatchExamples
 import IocProofs.Lemmas.M2IsCode
 import IocProofs.Lemmas.SemMisc
+import IocProofs.Lemmas.SemDiscover
 namespace Ioc.C06
 open Ioc Ioc.Tag Ioc.Match
 
@@ -261,5 +262,58 @@ theorem C06_machine_inject_is_code (sc : M2.Scen) (st : M2.St) (f : M2.Frame) (r
 theorem C06_code_fasFilter (g : Nat → Bool) (l : List Nat) :
     Go.run (Sem.filterPrims g) Progs.fas_Filter [Sem.encInts l, .str "f"] () = some (Sem.encInts (l.filter g), ()) :=
   Sem.fasFilter_sem g l
+
+/-! ### the tie to the code: candidate discovery (regenerated)
+
+`Ioc.Progs.depAware_PostProcessProperties`, `depFunc_PostProcessProperties` and `isActualKind` are the syntax trees of the two
+discovery processors (dependency_aware_post_processors.go:40-66, dependency_function_aware_post_processors.go:40-68) and their
+helper.  The registry and the option closures of package container are interpreted (`Sem.discFn`: an option token means the
+filter container/options.go implements; `GetMetas` filters the population in enumeration order), everything else is run by
+the interpreter.  For EVERY population, every list of property nodes and every state of their `Injects`, the regenerated
+wire processor appends to node i exactly `Sem.discoverWire` — which is `Match.candidatesWire` — and the func processor exactly
+`Sem.discoverFunc` — `Match.candidatesFunc`: by type only components of exactly the pointer type / implementers of the
+interface (also behind a slice), for the func tag those that additionally pass FuncName / some FuncNameAndResult alternative
+(ONE registry lookup: a provider matching several alternatives is still one candidate); nodes with other tags are untouched. -/
+theorem C06_code_discovery_wire (pop : List Match.Prov) (props : List Sem.DProp) (byName : String → Option Nat) (n : Nat) (w : Sem.DW) :
+    Go.run (Sem.DP pop props byName) Progs.depAware_PostProcessProperties
+        [.list ((List.range' 0 n).map (fun i => Go.Val.ref i 20)), .str "c", .str "n"] w =
+      some (.tuple [.nil, .nil], Sem.applyDisc (fun i => Sem.discoverWire pop byName (Sem.propAt props i)) (List.range' 0 n) w) :=
+  Sem.depAware_sem pop props byName n w
+
+theorem C06_code_discovery_func (pop : List Match.Prov) (props : List Sem.DProp) (funcRes : String → Nat → Match.Prov → Bool)
+    (funcName : String → Match.Prov → Bool) (n : Nat) (w : Sem.DW) :
+    Go.run (Sem.DF pop props funcRes funcName) Progs.depFunc_PostProcessProperties
+        [.list ((List.range' 0 n).map (fun i => Go.Val.ref i 20)), .str "c", .str "n"] w =
+      some (.tuple [.nil, .nil], Sem.applyDisc (fun i => Sem.discoverFunc pop funcRes funcName (Sem.propAt props i)) (List.range' 0 n) w) :=
+  Sem.depFunc_sem pop props funcRes funcName n w
+
+/-- what a pass does to one node: its `Injects` grows by exactly the discovered candidates (and nothing else changes) -/
+theorem C06_code_discovery_per_node (disc : Nat → List (Option Nat)) (n : Nat) (w : Sem.DW) (j : Nat) (hj : j < n) (hl : j < w.length) :
+    (Sem.applyDisc disc (List.range' 0 n) w).getD j [] = w.getD j [] ++ disc j ∧
+    (Sem.applyDisc disc (List.range' 0 n) w).length = w.length :=
+  ⟨Sem.applyDisc_in disc _ w j (List.nodup_range' (step := 1) (by omega)) (by simp [List.mem_range'_1]; omega) hl,
+   Sem.applyDisc_length disc _ w⟩
+
+/-- the discovered lists ARE the model's candidate lists (M3), given that the tag text and the closures mean what M3 says -/
+theorem C06_code_discovery_is_model (pop : List Match.Prov) (byName : String → Option Nat) (p : Sem.DProp) (tv : Bytes)
+    (hw : p.tag = "wire") (htv : tv.isEmpty = (p.tagVal == ""))
+    (hbn : byName p.tagVal = (pop.find? (fun q => q.name == tv)).map (·.id)) :
+    Sem.discoverWire pop byName p = Match.candidatesWire pop p.kind tv :=
+  Sem.discoverWire_is_candidatesWire pop byName p tv hw htv hbn
+
+theorem C06_code_discovery_func_is_model (pop : List Match.Prov) (funcRes : String → Nat → Match.Prov → Bool)
+    (funcName : String → Match.Prov → Bool) (p : Sem.DProp) (tv : Bytes) (args : Tag.Args) (alts : Nat → Bytes) (hf : p.tag = "func")
+    (hres : ∀ r q, funcRes p.tagVal r q = Match.funcNameAndResult tv (alts r) q)
+    (hname : ∀ q, funcName p.tagVal q = Match.funcName tv q)
+    (hargs : Tag.find args Match.kReturns = p.returns.map (fun rs => rs.map alts)) :
+    Sem.discoverFunc pop funcRes funcName p = Match.candidatesFunc pop p.kind tv args :=
+  Sem.discoverFunc_is_candidatesFunc pop funcRes funcName p tv args alts hf hres hname hargs
+
+/-- the helper isActualKind, regenerated: the type itself when it is of the wanted kind, the element type of a slice of it -/
+theorem C06_code_isActualKind (k : Match.Kind) (ptr : Bool) :
+    Go.run Sem.isaPrims Progs.isActualKind [Sem.encKind k, .str (if ptr then "ptr" else "iface")] () =
+      some (.tuple [(Sem.isActualModel k (if ptr then "ptr" else "iface")).1,
+                    .bool (Sem.isActualModel k (if ptr then "ptr" else "iface")).2], ()) :=
+  Sem.isActualKind_sem k ptr
 
 end Ioc.C06
